@@ -192,7 +192,18 @@ def reader_check(ctx, mode, mc_args, drivers, gen_args=None, l1=True, thorough_m
         traces.append(("replay", mc_reader_gen(ctx, *gen_args)))
     for d in drivers:
         tf = ctx.path(d.replace(":", "_") + ".ndjson")
-        C.run_harness([d, "--out", tf, "--seed", ctx.seed, "--tier", ctx.tier], timeout=3000)
+        p = C.run_harness([d, "--out", tf, "--seed", ctx.seed, "--tier", ctx.tier], timeout=3000, allow_rc=(0, -6, 134, -11, 139, -9, 137, 101))
+        if p.returncode == 101:
+            raise C.ToolError("harness panicked (its own bug): " + p.stderr[-1500:])
+        if p.returncode != 0:
+            # the code under test killed the process (abort on allocation failure, stack overflow, ...): that is a result,
+            # and the case being executed - the last one on disk - is the witness
+            lines = C.read_lines(tf)
+            a = max([i for i, l in enumerate(lines) if '"ev":"case"' in l] or [0])
+            ctx.violation(lines[a:], "the process running the real code was killed (rc=%d) while executing this case: %s" % (p.returncode, p.stderr.strip().splitlines()[-1][:200] if p.stderr.strip() else ""))
+            with open(tf, "w") as f:
+                f.write("\n".join(lines[:a]) + ("\n" if a else ""))
+                f.write('{"ev":"end"}\n' if a else '{"ev":"case","n":0,"comp":"reader","schema":[]}\n{"ev":"end"}\n')
         traces.append((d, tf))
     for d, tf in traces:
         count_runs(ctx, tf)
